@@ -516,6 +516,7 @@ func (b *skBuilder) callCmd(c *ast.CallExpr, kind string) *cmd {
 				return nil
 			}
 			b.cur.hasOwn = true
+			b.x.skLockOps++
 			switch callee.Name() {
 			case "Lock":
 				if kind == "" {
